@@ -49,6 +49,9 @@ def programs():
     P['close(None)||send_text'] = dict(z=None, threads=[[['close', None, '']], [['send_text', 'T1-0']]])
     P['close(None)||close||send_binary'] = dict(z=None, threads=[[['close', None, '']], [['close', 1000, 'x']], [['send_binary', b'T2-0']]])
     P['loop-server-close-empty||send_text'] = dict(z=None, loop='server-close-empty', loop_n=3, threads=[[['send_text', 'T1-0'], ['send_text', 'T1-1']]])
+    P['close||big-binary'] = dict(z=None, threads=[[['close', 1000, 'bye']], [['send_binary', b'T1-0 ' + bytes(range(256)) * 280]]])
+    P['close||big-binary-z||ping'] = dict(z='permessage-deflate', threads=[[['close', 1000, 'bye']], [['send_binary', b'T1-0 ' + bytes(range(251)) * 300]],
+                                                                         [['send_ping', b'T2-0']]])
     P['close||close||send_text'] = dict(z=None, threads=[[['close', 1000, 'a']], [['close', 1001, 'b']], [['send_text', 'T2-0']]])
     P['close||text||binary-z'] = dict(z='permessage-deflate', threads=[[['close', 1000, 'bye']], [['send_text', 'T1-0 kkkkkkkkkkkk']],
                                                                          [['send_binary', b'T2-0 kkkkkkkkkkkk']]])
